@@ -343,7 +343,7 @@ func c05Worker(c *mc.Ctx) {
 	ws := pipe.NewWorkspace("c05")
 	defer ws.Close()
 	r := px.NewRunner(px.NB)
-	maxOps, maxParen := 5, 3
+	maxOps, maxParen := 6, 4
 	if c.Quick() {
 		maxOps, maxParen = 4, 2
 	}
